@@ -25,4 +25,3 @@ func NewRandSource(seed int64) rand.Source {
 	globalSrc = s
 	return s
 }
-
